@@ -98,6 +98,8 @@ func init() {
 				Bound: fmt.Sprintf("all edge lists with %d edges x {greedy,dfs} x {ns,lp} x 4 size-aware positioners x splines x {fixed, per-node mixed-parity widths}", d)},
 			{Name: "G-deep", Space: spaceG(d+1, d+1, tierPick(tier, 0, 5), nil), Eval: stdEval("C05", staticGrid(g5), or),
 				Bound: fmt.Sprintf("all edge lists with %d edges x {greedy,dfs} x {ns,lp} x {sink,valign,packright,bk} x {polyline,ortho} x per-node sizes (even and mixed-parity widths)", d+1)},
+			{Name: "G6n4", Space: spaceG(6, 6, 4, nil), Eval: stdEval("C05", staticGrid(gridSpec{P1: allP1, P2: []int{0}, P4: []int{1}, P5: []int{2}, SZ: []int{1}}.list()), or),
+				Bound: "all edge lists with 6 edges on <=4 nodes (dense cyclic multigraphs: edges reversed by the two-node-cycle pass AND by the cycle breaker) x {greedy,dfs} x ns x valign x polyline"},
 			{Name: "G-random-greedy", Space: spaceG(1, 4, 0, cyclic), Eval: stdEval("C05", staticGrid(gridSpec{P1: []int{2}, P2: allP2, P4: []int{0}, P5: []int{2}, SZ: []int{2}}.list()), or),
 				Bound: "all cyclic edge lists with <=4 edges x greedy-random with every RNG answer sequence"},
 			{Name: "macro-3", Space: spaceMacro(3, false), Eval: stdEval("C05", staticGrid(gridSpec{P1: []int{0}, P2: allP2, P4: []int{0, 4}, P5: []int{2, 3}, SZ: []int{2}}.list()), or),
@@ -115,6 +117,8 @@ func init() {
 		}
 		g := append(gridSpec{P1: allP1, P2: allP2, P4: saP4, P5: []int{1, 2, 3}, SZ: []int{1, 2}}.list(),
 			gridSpec{P1: allP1, P2: allP2, P4: saP4, P5: []int{2}, SZ: []int{1, 2}, Virt: []bool{true}}.list()...)
+		// mixed-parity widths put node centres on halves: two centres can then be less than one unit apart without being equal
+		g = append(g, gridSpec{P1: allP1, P2: allP2, P4: saP4, P5: []int{3}, SZ: []int{9}}.list()...)
 		gbk := gridSpec{P1: allP1, P2: allP2, P4: []int{4, 5, 8}, P5: []int{1, 2, 3}, SZ: []int{2}}.list()
 		gs := gridSpec{P1: []int{0}, P2: allP2, P4: saP4, P5: []int{4}, SZ: []int{1, 2}}.list()
 		g5 := gridSpec{P1: []int{0}, P2: allP2, P4: saP4, P5: []int{2, 3}, SZ: []int{2}}.list()
@@ -227,6 +231,8 @@ func init() {
 				Bound: "all cyclic edge lists with <=4 edges x greedy-random with every RNG answer sequence"},
 			{Name: "D(6,7)", Space: spaceD(6, 6, 7, false), Eval: stdEval("C11", staticGrid(gridSpec{P1: []int{0}, P2: []int{1}, P4: []int{1}, P5: []int{0}, SZ: []int{1}}.list()), or),
 				Bound: "every multiset of 6..7 edges over the 15 pairs of 6 nodes"},
+			{Name: "DS6-rotations", Space: spaceRotations(spaceDS(6, 5, tierPick(tier, 10, 15))), Eval: stdEval("C11", staticGrid(gridSpec{P1: []int{0}, P2: []int{1}, P4: []int{1}, P5: []int{0}, SZ: []int{1}}.list()), or),
+				Bound: fmt.Sprintf("every connected simple DAG on 6 nodes with 5..%d edges x every rotation of its source-major and target-major edge orders and of their reverses (4m edge orders per DAG: non-monotone adjacency lists, node list not starting at a source)", tierPick(tier, 10, 15))},
 			{Name: "macro-3", Space: spaceMacro(3, false), Eval: stdEval("C11", staticGrid(g), or),
 				Bound: "every graph built by <=3 gadget insertions (path, fan-in/out, 3-/4-cycle, diamond, long-edge triangle; shapes with up to 13 edges)"},
 			{Name: "seeds", Space: spaceSeeded(seedWitnesses, tierPick(tier, 1, 2)), Eval: stdEval("C11", staticGrid(g), or),
